@@ -22,7 +22,9 @@ Mk(s, impl) == [i \in 1..Len(s) |-> [term |-> TermPal[s[i].t], degree |-> s[i].d
 MkF(fa) == [i \in 1..Len(fa) |-> [term |-> fa[i].term, degree |-> fa[i].d, impl |-> fa[i].impl]]
 Init == /\ acts = <<>> /\ ready = FALSE /\ aggr = "Maximum" /\ res = 1 /\ lo = Zero /\ hi = One
         /\ xs = <<>> /\ ys = <<>> /\ vv = <<>>
-        /\ grp \in (IF FromFile THEN { <<g>> : g \in 1..64 } ELSE { <<n, a, im, r>> : n \in 0..MaxLen, a \in Aggrs, im \in Impls, r \in Ress })
+        /\ grp \in (IF FromFile THEN { <<g>> : g \in 1..64 } ELSE { g \in { <<n, a, im, r>> : n \in 0..MaxLen, a \in Aggrs, im \in Impls, r \in Ress } :
+                                                    \* three products of products leave TLC's 32-bit integers at the finer resolutions
+                                                    ~(g[1] >= 3 /\ g[2] = "AlgebraicSum" /\ g[3] = "AlgebraicProduct" /\ g[4] >= 4) })
 Next == /\ ~ready /\ ready' = TRUE /\ UNCHANGED grp
         /\ IF FromFile
            THEN \E i \in { j \in 1..Len(FileCases) : j % 64 = grp[1] - 1 } :
